@@ -88,7 +88,7 @@ CHECKS = {
         level="exploration", engine="sched",
         technique="stateless DFS over goroutine schedules (deviation-bounded) of the real channel manager inside synctest bubbles, exhaustive over script and schedule space within the bounds",
         text="The real replicateChannelManager (handlers, TS manager, barriers) is driven by fakemq streams; every single-stream script up to the length bound and every schedule of the multi-stream scenarios within the deviation bound is executed and the emitted stream is compared with the source log (complete, duplicate-free, ordered, payload-exact, packs in read order with the right labels).",
-        note="Bounds: scripts <= 2 packs (3 thorough) over 13 pack letters; <= 2 deviations (3 thorough); hook-to-hook segments are atomic; source dispatcher and downstream are the models of DESIGN 2.7. Kafka-downstream scenarios (the manager's other start path, identity addressing) are part of C01, C02 and C04.",
+        note="A partition whose drop is in flight when the task starts (announced Dropping, downstream still has it, drop message in the backlog) is one of the scenarios; a delete for such a partition is left out on purpose by the handler - recorded finding C01/missing/del/partition-drop-in-flight. Bounds: scripts <= 2 packs (3 thorough) over 13 pack letters; <= 2 deviations (3 thorough); hook-to-hook segments are atomic; source dispatcher and downstream are the models of DESIGN 2.7. Kafka-downstream scenarios (the manager's other start path, identity addressing) are part of C01, C02 and C04.",
         parts=[part("stream", "core", "reader", "TestVerifC01Stream", shards=(12, 16), budget=(150, 900), gomaxprocs=1),
                part("race", "core", "reader", "TestVerifC01Stream", shards=(4, 8), budget=(60, 300), race=True)],
     ),
@@ -111,7 +111,7 @@ CHECKS = {
         level="exploration", engine="sched",
         technique="stateless DFS over goroutine schedules (deviation-bounded) of the real channel manager and its barriers for every drop / stop / restart scenario",
         text="Drop-collection and drop-partition scripts over 1-3 shards, partition registration racing stream registration, stop with and without a half-completed drop, and restarts with objects already dropped upstream are executed on the real channel manager under every schedule within the deviation bound; the drop requests observed on the event channel are counted, attributed and placed in time against the per-shard delivery progress.",
-        note="Bounds: <= 2 shards (3 thorough), <= 2 deviations (3 thorough; 1 for the heaviest scenarios). After a drop the scripts address the dropped object no more (a source never does). Pause and resume on the same channel manager after a replayed drop (partition / collection; downstream has applied the request or still lists the object) must not produce a second request; a resume from the start of the logs racing the announcement of a partition (strict cost model, 3 deviations) must still wait for every shard.",
+        note="Restart scenarios also cover a dropped collection that joins a handler which is at that moment emitting a pack FORWARDED to it by another handler (the defect repaired by /repo 4fadc98 was found there), and a dropped collection without a checkpoint of its own joining the handler of a resumed collection. Bounds: <= 2 shards (3 thorough), <= 2 deviations (3 thorough; 1 for the heaviest scenarios). After a drop the scripts address the dropped object no more (a source never does). Pause and resume on the same channel manager after a replayed drop (partition / collection; downstream has applied the request or still lists the object) must not produce a second request; a resume from the start of the logs racing the announcement of a partition (strict cost model, 3 deviations) must still wait for every shard.",
         parts=[part("drop", "core", "reader", "TestVerifC04Drop", shards=(12, 16), budget=(150, 900), gomaxprocs=1),
                part("race", "core", "reader", "TestVerifC04Drop", shards=(4, 8), budget=(60, 300), race=True)],
     ),
